@@ -33,6 +33,9 @@ TRUSTED = ["harness/oracle_tree.py (independent evaluator of ESR's operator sema
 ASSUMPTIONS = ["hcanon: sympy's canonicalisation preserves the value at generic points (sampled on every line, not proved)",
                "lines whose tree or string is finite at none of the sampled points are counted as never-finite and not compared",
                "C02b theorems use total real arithmetic on both sides (x/0 = 0, log 0 = 0, Real.rpow); where the oracle raises (singular operation) the Float conformance run does not compare values"]
+# tables whose committed version may stand in as a hand-written model when the translator cannot read the source;
+# value = the correspondence that then ties it to the code (common.prove / common.decide)
+FALLBACK = {'NodeString': "every drawn and library tree: real node_to_string string vs the model's rendering", 'SymTab': 'every library line and sampled tree read back through BOTH real symbol tables vs the independent operator semantics (oracle_tree), itself tied to the Lean evaluator (treeval)'}
 MODELLED = ["generator.py:node_to_string"]
 
 
@@ -309,7 +312,7 @@ def run(ctx):
            [("core_maths", 6), ("ext_maths", 5), ("keep_duplicates", 5), ("osc_maths", 5), ("base10_maths", 5), ("base_e_maths", 5)]
     bmap = dict(shipped)
     for rn, nmax in plan:
-        r = libgen.generate(ctx, rn, list(range(1, nmax + 1)), P=1, copy="c02_%s" % rn, timeout=1500)
+        r = libgen.generate(ctx, rn, list(range(1, nmax + 1)), P=(8 if deep else 1), copy="c02_%s" % rn, timeout=3000)
         if not r["ok"]:
             ctx.fail("generation-incomplete:%s" % rn, "generation of %s n<=%d did not complete: %s" % (rn, nmax, r["res"]["error"]), dict(kind="library", runname=rn, n=nmax))
             continue
